@@ -1,3 +1,29 @@
-From MW Require Import Num.
-Theorem placeholder : True. Proof. exact I. Qed.
-Print Assumptions placeholder.
+(*  C09 — predict returns the arm with the highest expectation.
+   
+    PROVED for context-free bandits, every state, every generator state, every number of rows: what predict
+    returns is the first-maximum (utils.argmax: replace only on strictly greater, so the FIRST arm in arm-list
+    order among ties) of exactly the dictionaries predict_expectations returns from the same state and the same
+    generator position, and both calls leave the same state behind.
+    ..._partial: for linear and neighbourhood policies the same definitional structure is in the model
+    (imp_query computes predictions from the expectation rows) and is compared with the implementation by the
+    deep-copy twin relation; TreeBandit + EpsilonGreedy(epsilon>0) is excluded by the property. *)
+From Coq Require Import List ZArith Bool Arith QArith Qcanon.
+From MW Require Import Num Assoc AssocFacts Rng Par CF CFInv CFClean CFForget CFSpec Matrix Lin Warm WarmInv Nbr NbrFacts NbrIndep Clu Tree Mab FacadeCF FacadeArms NumLaws QcInst.
+Import ListNotations.
+
+Theorem C09_predict_is_first_argmax_of_expectations_partial :
+  forall (R A G : Type) (N : Num R) (aeqb : A -> A -> bool) (RG : RngOps R G) 
+    (m : (@mab R A G)) (cx : option (@ctxs R)) (orc : (@oracle R A)),
+  is_cf m ->
+  snd (step N aeqb RG m (Predict cx orc)) = out_argmax N (snd (step N aeqb RG m (PredictExp cx orc))) /\
+  fst (step N aeqb RG m (Predict cx orc)) = fst (step N aeqb RG m (PredictExp cx orc)).
+Proof. exact @predict_is_argmax_of_expectations. Qed.
+Print Assumptions C09_predict_is_first_argmax_of_expectations_partial.
+
+Theorem C09_argmax_is_a_key :
+  forall (R A : Type) (N : Num R) (d : list (A * R)),
+  d <> [] -> exists a : A, argmax_first N d = Some a /\ In a (akeys d).
+Proof. exact @argmax_first_in. Qed.
+Print Assumptions C09_argmax_is_a_key.
+
+
